@@ -120,6 +120,10 @@ class Encoder:
       return ('g', r[1], f)
     return r
 
+  def single_racy(self, ins):
+    R, Wr = self.resources(ins)
+    return len({self.canon(r) for r in (R | Wr) if r[0] not in ('L', 'C', 'T')}) <= 1
+
   def is_companion(self, prog, pc):
     """True if this instruction only moves the second component (.val/.cnt/[i]) of a value whose first component
     was moved by the directly preceding instruction (one python-level load/store of an object reference)."""
@@ -144,6 +148,10 @@ class Encoder:
     op = ins['op']
     L = prog.labels
     if op == 'br':
+      if ins['e'] == ('const', 1):
+        return [L[ins['t']]]
+      if ins['e'] == ('const', 0):
+        return [L[ins['f']]]
       return [L[ins['t']], L[ins['f']]]
     if op == 'jmp':
       return [L[ins['t']]]
@@ -154,6 +162,8 @@ class Encoder:
     if op == 'qput':
       return [L[ins['ok']], L[ins['full']]]
     if op == 'next':
+      if self.s.iters[ins['it']].get('fail') is None:
+        return [L[ins['ok']], L[ins['stop']]]        # an iterator that cannot fail has no error edge
       return [L[ins['ok']], L[ins['stop']], L[ins['err']]]
     return [pc + 1]
 
@@ -189,10 +199,22 @@ class Encoder:
               st[nx] = new; work.append(nx)
       self.lockset.append([({k for k, v in x.items() if v > 0} if x is not None else set()) for x in st])
     # 2. racy accesses: an access is racy iff some other thread has a conflicting access (one of the two is a write)
-    #    whose must-lockset is disjoint from this one's
+    #    whose must-lockset is disjoint from this one's. Statically unreachable instructions do not count.
+    self.reach = []
+    for prog in s.threads:
+      seen, work = set(), [0]
+      while work:
+        pc = work.pop()
+        if pc in seen or pc >= len(prog.ins):
+          continue
+        seen.add(pc)
+        work.extend(self.succs(prog, pc))
+      self.reach.append(seen)
     acc = {}
     for tid, prog in enumerate(s.threads):
       for pc, ins in enumerate(prog.ins):
+        if pc not in self.reach[tid]:
+          continue
         R, Wr = self.resources(ins)
         for r in R | Wr:
           if r[0] in ('L', 'C', 'T'):
@@ -212,6 +234,8 @@ class Encoder:
       pps = set([0])
       for pc, ins in enumerate(prog.ins):
         op = ins['op']
+        if pc not in self.reach[tid]:
+          continue
         if op == 'acq':
           if ins['lock'] in self.lockset[tid][pc] and s.locks[ins['lock']] == 'rlock':
             continue                # re-entrant acquire of a lock we certainly hold
@@ -223,6 +247,34 @@ class Encoder:
           if self.is_companion(prog, pc):
             continue
           pps.add(pc)
+      # Lipton reduction: an acquire is a right mover. A racy access that is the first non-mover after an
+      # acquire (on every path) belongs to the same atomic step as that acquire and needs no pre-emption point.
+      n = len(prog.ins)
+      phase = [None] * n            # True: only right movers since the last PP which was an acquire
+      phase[0] = False
+      work = [0]
+      while work:
+        pc = work.pop()
+        ins = prog.ins[pc]
+        cur = phase[pc]
+        if pc in pps:
+          out = ins['op'] in ('acq',)
+          if ins['op'] not in ('acq',) and (tid, pc) in self.racy_at:
+            out = False
+        elif (tid, pc) in self.racy_at or ins['op'] in ('rel', 'wait', 'notify', 'qget', 'qput', 'next', 'tryacq'):
+          out = False
+        else:
+          out = cur
+        for nx in self.succs(prog, pc):
+          if nx >= n:
+            continue
+          new = out if phase[nx] is None else (phase[nx] and out)
+          if new != phase[nx]:
+            phase[nx] = new
+            work.append(nx)
+      merged = {pc for pc in pps if pc != 0 and (tid, pc) in self.racy_at and prog.ins[pc]['op'] in ('set', 'qget', 'qput', 'lappend', 'lpopleft', 'retadd')
+                and phase[pc] is True and self.single_racy(prog.ins[pc])}
+      pps -= merged
       self.pp.append(sorted(pps))
     self.halts = [[pc for pc, ins in enumerate(p.ins) if ins['op'] == 'halt'] for p in s.threads]
     # 4. locals that are live across a pre-emption point are the only locals kept in the state vector
@@ -549,7 +601,7 @@ class Encoder:
       st[('g', o, f)] = st[('g', o, f)] | val
       st[('g', o, f + '.cnt')] = st[('g', o, f + '.cnt')] + 1
       return [(None, st, pc + 1)]
-    if op == 'nop':
+    if op in ('nop', 'start'):
       return [(None, st, pc + 1)]
     if op == 'tstart':
       st[('started', self.s.thread_ids[ins['thread']])] = BV(1)
@@ -745,7 +797,21 @@ def bmc(sysm: System, bad_final=None, bad_any=None, depths=(40, 80, 120, 160), t
       bads.append(z3.And(ah, bad_final(enc, st))); names.append('bad_final')
     if any_bad:
       bads.append(z3.Or(*any_bad)); names.append('bad_any')
-    r, m = check(z3.Or(*bads))
+    running = z3.Not(nobodyK)
+    r, m = check(z3.Or(*bads, running))
+    if r == z3.unsat:
+      res.verdict = 'exhausted'; res.depth = K
+      if want_trace_of_ok:
+        r3, m3 = check(ah)
+        if r3 == z3.sat:
+          res.trace = extract(enc, sysm, m3, states, scheds, choices)
+      break
+    if r == z3.sat and not any(z3.is_true(m.eval(b, model_completion=True)) for b in bads):
+      res.verdict = 'bound'; res.depth = K
+      res.detail = f'some thread can still run at depth {K}'
+      if time.time() - t0 > timeout_s:
+        break
+      continue
     if r == z3.sat:
       which = [nm for nm, b in zip(names, bads) if z3.is_true(m.eval(b, model_completion=True))]
       res.verdict = 'deadlock' if which == ['deadlock'] else 'violation'
